@@ -154,6 +154,15 @@ class CFG:
             if st.finalbody:
                 outs = self._seq(st.finalbody, outs)
             return outs
+        if isinstance(st, ast.Match):
+            from .normalise import desugar_match
+
+            alt = desugar_match(st)
+            if alt is not None:
+                outs = self._seq(alt, ins)
+                if alt:
+                    self.of_stmt[st] = self.of_stmt.get(alt[0])
+                return outs
         # simple statement (incl. nested def/class as a definition statement)
         n = self._new("stmt", st)
         self.of_stmt[st] = n
@@ -401,6 +410,10 @@ def local_names(fnode, params):
                 loc.add((al.asname or al.name).split(".")[0])
         elif isinstance(n, ast.ExceptHandler) and n.name:
             loc.add(n.name)
+        elif isinstance(n, (ast.MatchAs, ast.MatchStar)) and n.name:
+            loc.add(n.name)  # names captured by a match pattern
+        elif isinstance(n, ast.MatchMapping) and n.rest:
+            loc.add(n.rest)
     return loc - glob, glob
 
 
